@@ -101,13 +101,16 @@ impl Add<Duration> for Time {
     type Output = Time;
 
     fn add(self, rhs: Duration) -> Self::Output {
+        // A `Time` cannot be negative (or exceed 2^96 ns): saturate rather than
+        // panic or wrap around when e.g. a correction field received from the
+        // network exceeds the timestamp it is applied to.
         if rhs.nanos().is_negative() {
             Time {
-                inner: self.nanos() - rhs.nanos().unsigned_abs(),
+                inner: self.nanos().saturating_sub(rhs.nanos().unsigned_abs()),
             }
         } else {
             Time {
-                inner: self.nanos() + rhs.nanos().unsigned_abs(),
+                inner: self.nanos().saturating_add(rhs.nanos().unsigned_abs()),
             }
         }
     }
